@@ -437,6 +437,14 @@ fn resolve_instruction_match_inner(
                     arg_value,
                     param.typ)?;
 
+                // An out-of-range argument disqualifies the match even
+                // if the production never reads the parameter's value
+                // (e.g. it is only substituted textually in an `asm` block)
+                if constrained_arg_value.should_propagate()
+                {
+                    return Ok(constrained_arg_value);
+                }
+
                 eval_ctx.set_local(
                     &param.name,
                     constrained_arg_value);
